@@ -508,6 +508,8 @@ def run(chk):
     _memeqlen_rule(chk, prog)
     _lockstep_rule(chk, prog)
     _gensymorder_rule(chk, prog)
+    _cmplen_rule(chk, prog)
+    _elemhash_rule(chk, prog)
 
 
 def _hashlast_rule(chk, prog):
@@ -749,3 +751,79 @@ def _gensymorder_rule(chk, prog):
             else:
                 chk.ok(rule, "janet_symbol_gen: the name that was hashed is the name that is copied")
     chk.floor(rule, 1, len(copies))
+
+
+def _cmplen_rule(chk, prog):
+    """Ordering two byte strings by memcmp over their common length decides nothing when one is a prefix of the other:
+    then the shorter one comes first, and only equal lengths mean equal.  The terminating 0 byte cannot stand in for
+    that comparison - strings may contain 0 bytes ("ab" against "ab\\0").  So wherever such a function answers 0 it has
+    compared the two lengths for equality."""
+    rule = "C03-CMPLEN"
+    chk.rule(rule, "a comparison function that memcmp's the common prefix of two byte strings returns 0 only where the two lengths were found equal")
+    n = 0
+    for fn in prog.all_funcs():
+        if fn.tu.name not in ("string.c", "value.c", "util.c", "buffer.c"):
+            continue
+        mins = [x for x in fn.nodes if x.k == "vardecl" and x.kids and strip_casts(x.kids[0]).k == "cond"
+                and len(set(y.name for y in x.kids[0].walk() if y.k == "ref")) == 2]
+        if not mins:
+            continue
+        lens = set(y.name for y in mins[0].kids[0].walk() if y.k == "ref")
+        mc = [c for c in fn.calls("memcmp") if any(is_ref(y) and y.name == mins[0].name for a in c.args for y in a.walk())]
+        if not mc or "int" not in (fn.ret or "int"):
+            continue
+        rets = [x for x in fn.nodes if x.k == "return" and x.kids and strip_casts(x.kids[0]).v == 0 and strip_casts(x.kids[0]).k != "cond"]
+        n += 1
+        chk.instance(rule)
+        chk.analysed(fn)
+        IN, T = flow.condition_facts(fn)
+        bad = None
+        for x, S in flow.states_at(fn, IN, T):
+            if x in rets:
+                for ps in S:
+                    eq = any(op in ("==",) and set(toks) >= lens for (op, l, r, toks, ln, rn) in ps)
+                    if not eq:
+                        bad = x
+        if not rets:
+            chk.ok(rule, "%s: never answers 0 by a literal return" % fn.name)
+        elif bad is None:
+            chk.ok(rule, "%s: `return 0` only where %s were found equal" % (fn.name, " and ".join(sorted(lens))))
+        else:
+            chk.violation(rule, fn.tu.name, fn.name, "return0", bad.loc,
+                          "%s answers 0 at %s on a path that has not compared %s for equality: a string and a longer one that continues "
+                          "with a 0 byte (\"ab\" and \"ab\\0\") compare as equal although = tells them apart, and sorted is no longer strictly "
+                          "ascending" % (fn.name, bad.loc, " and ".join(sorted(lens))))
+    chk.floor(rule, 1, n)
+
+
+def _elemhash_rule(chk, prog):
+    """The hash of a tuple or struct is mixed from the hashes of its elements, and two containers are equal exactly
+    when their elements are: so an element has to be hashed by janet_hash itself, the one function that agrees with =
+    (it folds -0.0 onto 0.0, hashes strings by content, ...).  A private fast path for "plain numbers" that leaves
+    out one of those normalisations gives [0] and [-0] different hashes while 0 = -0."""
+    rule = "C03-ELEMHASH"
+    chk.rule(rule, "a container hash mixes in only janet_hash(element): every value fed to janet_hash_mix by janet_array_calchash / janet_kv_calchash comes straight from janet_hash")
+    tu = prog.tus["util.c"]
+    n = 0
+    for name in ("janet_array_calchash", "janet_kv_calchash"):
+        fn = tu.funcs.get(name)
+        if fn is None:
+            raise AnalysisBroken("util.c: %s not found" % name)
+        chk.analysed(fn)
+        for c in fn.calls("janet_hash_mix"):
+            n += 1
+            chk.instance(rule)
+            a = strip_casts(c.args[1])
+            helper = tu.funcs.get(a.callee) if a.k == "call" and a.callee else None
+            normalises = helper is not None and any(
+                x.k == "asg" and x.op == "+=" and strip_casts(x.kids[1]).v == 0 and "double" in (x.kids[0].t or "double") for x in helper.nodes)
+            if a.k == "call" and a.callee == "janet_hash":
+                chk.ok(rule, "%s mixes janet_hash(%s)" % (name, a.args[0].text()[:20]))
+            elif normalises and helper.calls("janet_hash"):
+                chk.ok(rule, "%s mixes %s(...), which folds -0.0 itself and leaves the rest to janet_hash" % (name, a.callee))
+            else:
+                chk.violation(rule, "util.c", name, "mix:" + a.text()[:24].replace(" ", ""), c.loc,
+                              "%s mixes `%s` into the container's hash instead of janet_hash of the element: unless that helper repeats every "
+                              "normalisation of janet_hash (-0.0 onto 0.0), containers that are equal by = get different hashes - (= [0] [-0]) "
+                              "turns false and a table keyed by one is not found through the other" % (name, a.text()[:40]))
+    chk.floor(rule, 3, n)
